@@ -140,6 +140,100 @@ def _ends_with_return(body):
     return False
 
 
+def _contains_return(stmts):
+    for st in stmts:
+        for sub in ast.walk(st):
+            if isinstance(sub, ast.Return):
+                return True
+    return False
+
+
+def _tailify(stmts, budget=None):
+    """guard clauses -> nested if/else: the statements after an `if` that returns on some branch move into the branches that do
+    not return, so that every `return` ends up in tail position (loops/try/with that return are left alone)"""
+    budget = budget if budget is not None else [400]
+    out = []
+    for i, st in enumerate(stmts):
+        if isinstance(st, ast.If) and _contains_return([st]):
+            st = ast.copy_location(ast.If(test=st.test, body=_tailify(st.body, budget), orelse=_tailify(st.orelse, budget)), st)
+            rest = stmts[i + 1:]
+            if rest:
+                budget[0] -= len(rest)
+                if budget[0] < 0:
+                    out.append(st)
+                    out.extend(rest)
+                    return out
+                b_ret, e_ret = _ends_with_return(st.body), bool(st.orelse) and _ends_with_return(st.orelse)
+                if b_ret and e_ret:
+                    pass
+                elif b_ret:
+                    st.orelse = _tailify(list(st.orelse) + rest, budget)
+                elif e_ret:
+                    st.body = _tailify(list(st.body) + rest, budget)
+                else:
+                    st.body = _tailify(list(st.body) + copy.deepcopy(rest), budget)
+                    st.orelse = _tailify(list(st.orelse) + rest, budget)
+            out.append(st)
+            return out
+        out.append(st)
+    return out
+
+
+def _loop_returns_to_break(body):
+    """[pre.., <loop with `return X` inside>, `return D`] -> [pre.., __lr = D, <loop with `__lr = X; break`>, `return __lr`]
+    (D a constant; the returns are not inside a nested loop / try / with); None when the body is not of that shape"""
+    if len(body) < 2 or not isinstance(body[-1], ast.Return) or not isinstance(body[-2], (ast.For, ast.While)) or body[-2].orelse:
+        return None
+    d = body[-1].value
+    if not (d is None or isinstance(d, ast.Constant)):
+        return None
+    if _contains_return(body[:-2]):
+        return None
+    loop = copy.deepcopy(body[-2])
+    ok = [True]
+    hits = [0]
+
+    def conv(stmts):
+        out = []
+        for st in stmts:
+            if isinstance(st, ast.Return):
+                out.append(ast.copy_location(ast.Assign(targets=[ast.Name(id="__lr", ctx=ast.Store())],
+                                                        value=st.value if st.value is not None else ast.Constant(value=None)), st))
+                out.append(ast.copy_location(ast.Break(), st))
+                hits[0] += 1
+                return out
+            if isinstance(st, ast.If):
+                st.body = conv(st.body) or [ast.copy_location(ast.Pass(), st)]
+                st.orelse = conv(st.orelse)
+            elif _contains_return([st]):
+                ok[0] = False
+            out.append(st)
+        return out
+    loop.body = conv(loop.body)
+    if not ok[0] or not hits[0]:
+        return None
+    init = ast.copy_location(ast.Assign(targets=[ast.Name(id="__lr", ctx=ast.Store())],
+                                        value=copy.deepcopy(d) if d is not None else ast.Constant(value=None)), loop)
+    fin = ast.copy_location(ast.Return(value=ast.Name(id="__lr", ctx=ast.Load())), body[-1])
+    new = list(body[:-2]) + [init, loop, fin]
+    for st in new:
+        ast.fix_missing_locations(st)
+    return new
+
+
+def _helper_body(fn):
+    return getattr(fn, "_tail_body", None) or [s for s in fn.body if not (isinstance(s, ast.Expr) and isinstance(s.value, ast.Constant))]
+
+
+def _kwarg_passthrough_only(fn):
+    """the `**kwargs` parameter is only ever forwarded as `**kwargs` to calls"""
+    name = fn.args.kwarg.arg
+    uses = [n for n in ast.walk(fn) if isinstance(n, ast.Name) and n.id == name]
+    fwd = [k.value for c in ast.walk(fn) if isinstance(c, ast.Call) for k in c.keywords if k.arg is None and isinstance(k.value, ast.Name)
+           and k.value.id == name]
+    return bool(uses) and len(uses) == len(fwd) and all(any(u is f for f in fwd) for u in uses)
+
+
 def _inlinable(fn, force=False):
     if fn.name in KEEP or (not fn.name.startswith("_") and not force) or fn.name.startswith("__"):
         return False
@@ -147,7 +241,9 @@ def _inlinable(fn, force=False):
         if not (isinstance(d, ast.Name) and d.id in ("staticmethod", "classmethod")):
             return False
     a = fn.args
-    if a.vararg or a.kwarg or a.posonlyargs:
+    if a.vararg or a.posonlyargs:
+        return False
+    if a.kwarg and not _kwarg_passthrough_only(fn):
         return False
     for sub in ast.walk(fn):
         if isinstance(sub, (ast.Yield, ast.YieldFrom, ast.Await, ast.Global, ast.Nonlocal)):
@@ -163,12 +259,40 @@ def _inlinable(fn, force=False):
                 and any(k.arg in ("row", "column") for k in sub.keywords):
             return False
     body = [s for s in fn.body if not (isinstance(s, ast.Expr) and isinstance(s.value, ast.Constant))]
-    return _tail_returns_only(body)
+    fn._tail_body = None
+    if _tail_returns_only(body):
+        return True
+    tb = _tailify(copy.deepcopy(body))
+    if _tail_returns_only(tb):
+        fn._tail_body = tb
+        return True
+    lb = _loop_returns_to_break(body)
+    if lb is not None and _tail_returns_only(lb):
+        fn._tail_body = lb
+        return True
+    return False
 
 
 def _simple_arg(e):
     return isinstance(e, (ast.Name, ast.Constant, ast.Attribute)) or (
         isinstance(e, ast.Subscript) and isinstance(e.value, (ast.Name, ast.Attribute)) and isinstance(e.slice, (ast.Constant, ast.Name)))
+
+
+def _pure_arg(e, depth=0):
+    """a comparison / boolean combination of names and constants: evaluating it later, or more than once, gives the same value
+    as long as the names are not re-assigned (the expanded helper cannot assign the caller's names: its locals are renamed)"""
+    if depth > 3:
+        return False
+    if isinstance(e, (ast.Name, ast.Constant)):
+        return True
+    if isinstance(e, ast.Compare):
+        return len(e.ops) == 1 and isinstance(e.ops[0], (ast.Eq, ast.NotEq, ast.Is, ast.IsNot, ast.Lt, ast.LtE, ast.Gt, ast.GtE)) \
+            and _pure_arg(e.left, depth + 1) and _pure_arg(e.comparators[0], depth + 1)
+    if isinstance(e, ast.BoolOp):
+        return all(_pure_arg(v, depth + 1) for v in e.values)
+    if isinstance(e, ast.UnaryOp) and isinstance(e.op, ast.Not):
+        return _pure_arg(e.operand, depth + 1)
+    return False
 
 
 class _Renamer(ast.NodeTransformer):
@@ -208,7 +332,11 @@ def _expand(call, fn, is_method, counter, result_name):
             if isinstance(args[i], ast.Starred):
                 return None
             bound[p] = args[i]
+    surplus = []
     for kw in call.keywords:
+        if kw.arg is not None and kw.arg not in params and kw.arg not in [a.arg for a in fn.args.kwonlyargs] and fn.args.kwarg is not None:
+            surplus.append(kw)
+            continue
         if kw.arg is None or kw.arg not in params and kw.arg not in [a.arg for a in fn.args.kwonlyargs]:
             return None
         bound[kw.arg] = kw.value
@@ -229,8 +357,9 @@ def _expand(call, fn, is_method, counter, result_name):
     subst = {}
     rename = {}
     stores = {n.id for n in ast.walk(fn) if isinstance(n, ast.Name) and isinstance(n.ctx, ast.Store)}
+    stores |= {n.id for st in _helper_body(fn) for n in ast.walk(st) if isinstance(n, ast.Name) and isinstance(n.ctx, ast.Store)}
     for p, a in bound.items():
-        if _simple_arg(a) and p not in stores:
+        if (_simple_arg(a) or _pure_arg(a)) and p not in stores:
             subst[p] = a
         else:
             nm = p + tag
@@ -248,9 +377,27 @@ def _expand(call, fn, is_method, counter, result_name):
     for nm in stores:
         if nm not in rename and nm not in bound:
             rename[nm] = nm + tag
-    body = [copy.deepcopy(s) for s in fn.body if not (isinstance(s, ast.Expr) and isinstance(s.value, ast.Constant))]
+    body = [copy.deepcopy(s) for s in _helper_body(fn)]
     rn = _Renamer(subst, rename)
     body = [rn.visit(s) for s in body]
+    if fn.args.kwarg is not None:
+        # `**kwargs` is only forwarded: write the surplus keywords of this call site out at every forwarding call
+        fwd_kws = []
+        for kw in surplus:
+            if _simple_arg(kw.value):
+                fwd_kws.append((kw.arg, kw.value))
+            else:
+                nm = kw.arg + tag
+                pre.append(ast.Assign(targets=[ast.Name(id=nm, ctx=ast.Store())], value=copy.deepcopy(kw.value), lineno=call.lineno, col_offset=0))
+                fwd_kws.append((kw.arg, ast.Name(id=nm, ctx=ast.Load())))
+        kwname = rename.get(fn.args.kwarg.arg, fn.args.kwarg.arg)
+        for st in body:
+            for c in ast.walk(st):
+                if isinstance(c, ast.Call):
+                    for k in list(c.keywords):
+                        if k.arg is None and isinstance(k.value, ast.Name) and k.value.id in (kwname, fn.args.kwarg.arg):
+                            i = c.keywords.index(k)
+                            c.keywords[i:i + 1] = [ast.keyword(arg=a, value=copy.deepcopy(v)) for a, v in fwd_kws]
 
     def fix_returns(stmts):
         out = []
@@ -268,7 +415,7 @@ def _expand(call, fn, is_method, counter, result_name):
             out.append(st)
         return out
     body = fix_returns(body)
-    if result_name is not None and not _ends_with_return([s for s in fn.body if not (isinstance(s, ast.Expr) and isinstance(s.value, ast.Constant))]):
+    if result_name is not None and not _ends_with_return(_helper_body(fn)):
         # falls off the end on some path: result defaults to None
         pre.append(ast.Assign(targets=[ast.Name(id=result_name, ctx=ast.Store())], value=ast.Constant(value=None), lineno=call.lineno, col_offset=0))
     return pre + body
@@ -401,8 +548,504 @@ def inline_helpers(tree, extern=None):
     if total:
         # collapse `x = <expr>; y = x` chains produced by the expansion:  __ret = v ; target = __ret  ->  target = v
         _collapse_result_copies(tree)
+        _sink_tuple_results(tree)
+        _thread_bool_results(tree)
         ast.fix_missing_locations(tree)
     return total
+
+
+def _simple_generator(fn):
+    """a private generator: straight-line prelude, then one `for` loop whose `yield <value>` statements are not inside an inner
+    loop/try/with -> the loop, else None"""
+    if fn.decorator_list or fn.args.vararg or fn.args.kwarg or fn.args.posonlyargs:
+        return None
+    body = [s for s in fn.body if not (isinstance(s, ast.Expr) and isinstance(s.value, ast.Constant))]
+    if not body or not isinstance(body[-1], ast.For) or body[-1].orelse:
+        return None
+    for st in body[:-1]:
+        if not isinstance(st, (ast.Assign, ast.AugAssign, ast.Expr)) or any(isinstance(x, (ast.Yield, ast.YieldFrom)) for x in ast.walk(st)):
+            return None
+    loop = body[-1]
+    ylds = [x for x in ast.walk(fn) if isinstance(x, (ast.Yield, ast.YieldFrom))]
+    if not ylds or any(isinstance(x, (ast.Return, ast.Await, ast.Global, ast.Nonlocal, ast.FunctionDef, ast.Lambda)) for x in ast.walk(loop)):
+        return None
+    found = []
+
+    def scan(stmts):
+        for st in stmts:
+            if isinstance(st, ast.Expr) and isinstance(st.value, ast.Yield) and st.value.value is not None:
+                if any(isinstance(x, (ast.Yield, ast.YieldFrom)) for x in ast.walk(st.value.value)):
+                    return False
+                found.append(st)
+            elif isinstance(st, ast.If):
+                if any(isinstance(x, (ast.Yield, ast.YieldFrom)) for x in ast.walk(st.test)):
+                    return False
+                if not scan(st.body) or not scan(st.orelse):
+                    return False
+            elif any(isinstance(x, (ast.Yield, ast.YieldFrom)) for x in ast.walk(st)):
+                return False
+        return True
+    if not scan(loop.body) or len(found) != len(ylds):
+        return None
+    return loop
+
+
+def _decontinue(stmts):
+    """`if c: ...; continue` + REST -> `if c: ... else: REST` at the level of one loop body; None when a `continue` remains"""
+    out = []
+    for i, st in enumerate(stmts):
+        if isinstance(st, ast.Continue):
+            return out            # the rest of the block is dead
+        if isinstance(st, ast.If) and any(isinstance(x, ast.Continue) for x in ast.walk(st)):
+            b_cont = bool(st.body) and isinstance(st.body[-1], ast.Continue)
+            e_cont = bool(st.orelse) and isinstance(st.orelse[-1], ast.Continue)
+            rest = stmts[i + 1:]
+            nb = _decontinue(st.body[:-1] if b_cont else st.body)
+            ne = _decontinue(st.orelse[:-1] if e_cont else st.orelse)
+            if nb is None or ne is None:
+                return None
+            if b_cont and not e_cont:
+                r = _decontinue(rest)
+                if r is None:
+                    return None
+                new = ast.copy_location(ast.If(test=st.test, body=nb or [ast.copy_location(ast.Pass(), st)], orelse=ne + r), st)
+            elif e_cont and not b_cont:
+                r = _decontinue(rest)
+                if r is None:
+                    return None
+                new = ast.copy_location(ast.If(test=st.test, body=nb + r or [ast.copy_location(ast.Pass(), st)], orelse=ne), st)
+            elif b_cont and e_cont:
+                new = ast.copy_location(ast.If(test=st.test, body=nb or [ast.copy_location(ast.Pass(), st)], orelse=ne), st)
+            else:
+                return None       # a continue deeper inside: not handled
+            out.append(new)
+            return out
+        if any(isinstance(x, ast.Continue) for x in ast.walk(st)) and not isinstance(st, (ast.For, ast.While)):
+            return None
+        out.append(st)
+    return out
+
+
+def inline_simple_generators(tree, extern=None):
+    """`for T in self._gen(args): BODY` and `x = next(self._gen(args), D)` over a private one-loop generator are rewritten into
+    the generator's own loop with `yield V` replaced by `T = V; BODY` resp. `x = V; break`"""
+    gens, mgens = {}, {}
+    for nm, node in (extern or {}).items():
+        if isinstance(node, ast.FunctionDef) and _simple_generator(node) is not None:
+            gens[nm] = node
+    for node in tree.body:
+        if isinstance(node, ast.FunctionDef) and node.name.startswith("_") and not node.name.startswith("__") and _simple_generator(node) is not None:
+            gens[node.name] = node
+        elif isinstance(node, ast.ClassDef):
+            for sub in node.body:
+                if isinstance(sub, ast.FunctionDef) and sub.name.startswith("_") and not sub.name.startswith("__") \
+                        and _simple_generator(sub) is not None:
+                    mgens[(node.name, sub.name)] = sub
+    if not gens and not mgens:
+        return 0
+    total = [0]
+    counter = [0]
+
+    def gen_call(e, cls_name):
+        if not isinstance(e, ast.Call):
+            return None
+        f = e.func
+        if isinstance(f, ast.Name) and f.id in gens:
+            return gens[f.id], False
+        if isinstance(f, ast.Attribute) and isinstance(f.value, ast.Name) and f.value.id == "self" and cls_name and (cls_name, f.attr) in mgens:
+            return mgens[(cls_name, f.attr)], True
+        return None
+
+    def replace_yields(stmts, make):
+        out = []
+        for st in stmts:
+            if isinstance(st, ast.Expr) and isinstance(st.value, ast.Yield):
+                out.extend(make(st.value.value, st))
+                continue
+            if isinstance(st, ast.If):
+                st.body = replace_yields(st.body, make) or [ast.copy_location(ast.Pass(), st)]
+                st.orelse = replace_yields(st.orelse, make)
+            out.append(st)
+        return out
+
+    def expand(call, fn, is_method):
+        counter[0] += 1
+        exp = _expand(call, fn, is_method, 900 + counter[0], None)
+        if exp is None or not isinstance(exp[-1], ast.For):
+            return None
+        return exp
+
+    def process(stmts, cls_name, self_fn):
+        out = []
+        for st in stmts:
+            for field in ("body", "orelse", "finalbody"):
+                blk = getattr(st, field, None)
+                if isinstance(blk, list) and blk and isinstance(blk[0], ast.stmt) and not isinstance(st, (ast.FunctionDef, ast.ClassDef)):
+                    setattr(st, field, process(blk, cls_name, self_fn))
+            if isinstance(st, ast.Try):
+                for h in st.handlers:
+                    h.body = process(h.body, cls_name, self_fn)
+            if isinstance(st, ast.For):
+                hit = gen_call(st.iter, cls_name)
+                if hit and hit[0] is not self_fn:
+                    exp = expand(st.iter, hit[0], hit[1])
+                    if exp is not None:
+                        loop = exp[-1]
+                        body, target = _decontinue(copy.deepcopy(st.body)), st.target
+                        if body is None:
+                            out.append(st)
+                            continue
+                        body = body or [ast.copy_location(ast.Pass(), st)]
+
+                        def make(v, at, body=body, target=target):
+                            return [ast.copy_location(ast.Assign(targets=[copy.deepcopy(target)], value=v), at)] + copy.deepcopy(body)
+                        loop.body = replace_yields(loop.body, make)
+                        loop.orelse = st.orelse
+                        out.extend(exp)
+                        total[0] += 1
+                        continue
+            if isinstance(st, ast.Assign) and len(st.targets) == 1 and isinstance(st.targets[0], ast.Name) and isinstance(st.value, ast.Call) \
+                    and isinstance(st.value.func, ast.Name) and st.value.func.id == "next" and len(st.value.args) == 2 and not st.value.keywords:
+                hit = gen_call(st.value.args[0], cls_name)
+                if hit and hit[0] is not self_fn:
+                    exp = expand(st.value.args[0], hit[0], hit[1])
+                    if exp is not None:
+                        loop = exp[-1]
+                        tname = st.targets[0].id
+
+                        def make(v, at, tname=tname):
+                            return [ast.copy_location(ast.Assign(targets=[ast.Name(id=tname, ctx=ast.Store())], value=v), at),
+                                    ast.copy_location(ast.Break(), at)]
+                        loop.body = replace_yields(loop.body, make)
+                        out.append(ast.copy_location(ast.Assign(targets=[ast.Name(id=tname, ctx=ast.Store())], value=st.value.args[1]), st))
+                        out.extend(exp)
+                        total[0] += 1
+                        continue
+            out.append(st)
+        return out
+
+    for node in tree.body:
+        if isinstance(node, ast.FunctionDef):
+            node.body = process(node.body, None, node)
+        elif isinstance(node, ast.ClassDef):
+            for sub in node.body:
+                if isinstance(sub, ast.FunctionDef):
+                    sub.body = process(sub.body, node.name, sub)
+    if total[0]:
+        ast.fix_missing_locations(tree)
+    return total[0]
+
+
+def resugar_found_flag(tree):
+    """`m = None; for ..: if c: m = V; break` followed by `if m is not None: A [else: B]` where A ends the function (return /
+    raise / last statement of the function body) -> `for ..: if c: m = V; A` then B: the search-then-test idiom becomes
+    act-on-first-match.  `m = (a, b)` whose only uses in A are `m[0]`, `m[1]` is dissolved into a and b."""
+    n = [0]
+
+    def terminal(stmts):
+        return bool(stmts) and isinstance(stmts[-1], (ast.Return, ast.Raise))
+
+    def rewrite(stmts, top):
+        out = list(stmts)
+        i = 0
+        while i + 2 < len(out) + 1 and i + 2 <= len(out) - 1:
+            a, loop, test = out[i], out[i + 1], out[i + 2]
+            ok = isinstance(a, ast.Assign) and len(a.targets) == 1 and isinstance(a.targets[0], ast.Name) and isinstance(a.value, ast.Constant) \
+                and a.value.value is None and isinstance(loop, ast.For) and not loop.orelse and isinstance(test, ast.If)
+            done = False
+            if ok:
+                m = a.targets[0].id
+                t = test.test
+                pos = isinstance(t, ast.Compare) and len(t.ops) == 1 and isinstance(t.left, ast.Name) and t.left.id == m \
+                    and isinstance(t.comparators[0], ast.Constant) and t.comparators[0].value is None
+                found_body = None
+                if pos and isinstance(t.ops[0], ast.IsNot):
+                    found_body, missing = test.body, test.orelse
+                elif pos and isinstance(t.ops[0], ast.Is):
+                    found_body, missing = test.orelse, test.body
+                sets = []
+
+                def scan(blk):
+                    k = 0
+                    while k < len(blk):
+                        s2 = blk[k]
+                        if isinstance(s2, ast.Assign) and len(s2.targets) == 1 and isinstance(s2.targets[0], ast.Name) and s2.targets[0].id == m:
+                            if k + 2 == len(blk) and isinstance(blk[k + 1], ast.Break):
+                                sets.append((blk, k))
+                                k += 2
+                                continue
+                            return False
+                        if isinstance(s2, ast.If):
+                            if any(isinstance(x, ast.Name) and x.id == m for x in ast.walk(s2.test)):
+                                return False
+                            if not scan(s2.body) or not scan(s2.orelse):
+                                return False
+                        elif any(isinstance(x, ast.Name) and x.id == m for x in ast.walk(s2)) or isinstance(s2, ast.Break):
+                            return False
+                        k += 1
+                    return True
+                rest = out[i + 3:]
+                is_last = top and not rest
+                if found_body and (terminal(found_body) or is_last) and scan(loop.body) and sets \
+                        and not any(isinstance(x, (ast.For, ast.While)) for s2 in loop.body for x in ast.walk(s2)) \
+                        and not any(isinstance(x, (ast.Break, ast.Continue)) for s2 in found_body for x in ast.walk(s2)) \
+                        and not any(isinstance(x, ast.Name) and x.id == m for s2 in list(missing) + rest for x in ast.walk(s2)):
+                    for blk, k in sets:
+                        fb = copy.deepcopy(found_body)
+                        if not terminal(fb):
+                            fb.append(ast.copy_location(ast.Return(value=None), fb[-1]))
+                        v = blk[k].value
+                        uses = [x for s2 in fb for x in ast.walk(s2) if isinstance(x, ast.Name) and x.id == m]
+                        subs = [x for s2 in fb for x in ast.walk(s2) if isinstance(x, ast.Subscript) and isinstance(x.value, ast.Name)
+                                and x.value.id == m and isinstance(x.slice, ast.Constant) and isinstance(x.slice.value, int)
+                                and isinstance(x.ctx, ast.Load)]
+                        if isinstance(v, ast.Tuple) and all(isinstance(e, ast.Name) for e in v.elts) and uses and len(uses) == len(subs) \
+                                and all(0 <= x.slice.value < len(v.elts) for x in subs):
+                            class R(ast.NodeTransformer):
+                                def visit_Subscript(self, node):
+                                    if any(node is x for x in subs):
+                                        return ast.copy_location(ast.Name(id=v.elts[node.slice.value].id, ctx=ast.Load()), node)
+                                    return self.generic_visit(node)
+                            fb = [R().visit(s2) for s2 in fb]
+                            blk[k:k + 2] = fb
+                        elif isinstance(v, ast.Name) and uses:
+                            class R2(ast.NodeTransformer):
+                                def visit_Name(self, node):
+                                    if node.id == m and isinstance(node.ctx, ast.Load):
+                                        return ast.copy_location(ast.Name(id=v.id, ctx=ast.Load()), node)
+                                    return node
+                            fb = [R2().visit(s2) for s2 in fb]
+                            blk[k:k + 2] = fb
+                        else:
+                            blk[k + 1:k + 2] = fb
+                    out[i:i + 3] = [loop] + list(missing)
+                    n[0] += 1
+                    done = True
+            if not done:
+                i += 1
+        return out
+
+    def visit(node, top):
+        for fld in ("body", "orelse", "finalbody"):
+            blk = getattr(node, fld, None)
+            if isinstance(blk, list) and blk and isinstance(blk[0], ast.stmt):
+                for st in blk:
+                    visit(st, False)
+                is_fn_body = isinstance(node, (ast.FunctionDef, ast.AsyncFunctionDef)) and fld == "body"
+                setattr(node, fld, rewrite(blk, is_fn_body))
+        for h in getattr(node, "handlers", []) or []:
+            for st in h.body:
+                visit(st, False)
+            h.body = rewrite(h.body, False)
+    visit(tree, False)
+    if n[0]:
+        ast.fix_missing_locations(tree)
+    return n[0]
+
+
+def inline_local_closures(tree, modname=None):
+    """a nested `def g(..)` that is only ever called directly by its enclosing function (never passed around, no nonlocal) is
+    expanded at its call sites like a private helper: its free variables are the enclosing function's locals either way"""
+    total = 0
+    import json as _json
+    import os as _os
+    try:
+        reference = _json.load(open(_os.path.join(_os.path.dirname(_os.path.abspath(__file__)), "api_reference.json")))
+    except (OSError, ValueError):
+        return 0
+    quals = {}
+    toplevel = {q for q in reference if q.count(".") == 1}
+    # a nested helper of today's tree keeps its role when the function around it is split or renamed
+    ref_nested = {q.rsplit(".", 1)[1] for q in reference if q.rsplit(".", 1)[0] in reference}
+
+    def walk(node, prefix):
+        for ch in ast.iter_child_nodes(node):
+            if isinstance(ch, (ast.FunctionDef, ast.AsyncFunctionDef)):
+                quals[ch] = prefix + "." + ch.name
+                walk(ch, prefix + "." + ch.name)
+            elif isinstance(ch, ast.ClassDef):
+                walk(ch, prefix + "." + ch.name)
+            else:
+                walk(ch, prefix)
+    walk(tree, modname or "?")
+    for F in [n for n in ast.walk(tree) if isinstance(n, ast.FunctionDef)]:
+        for G in [st for st in F.body if isinstance(st, ast.FunctionDef)]:
+            if modname is None or quals.get(G) in reference or G.name in ref_nested:
+                continue      # closures of the reference tree are anchors of rules (the writer's per-cell helpers): kept as written
+            if G.decorator_list or any(isinstance(x, (ast.Nonlocal, ast.Global)) for x in ast.walk(G)):
+                continue
+            uses = [n for n in ast.walk(F) if isinstance(n, ast.Name) and n.id == G.name]
+            calls = [c for c in ast.walk(F) if isinstance(c, ast.Call) and isinstance(c.func, ast.Name) and c.func.id == G.name]
+            if not calls or len(uses) != len(calls):
+                continue
+            if any(c is x for c in calls for inner in ast.walk(F) if isinstance(inner, (ast.FunctionDef, ast.Lambda)) and inner is not F
+                   for x in ast.walk(inner)):
+                continue      # called from another nested function (or from itself)
+            if any(isinstance(x, ast.Name) and x.id == G.name and isinstance(x.ctx, ast.Store) for x in ast.walk(F)):
+                continue
+            tmpname = "_lc_%s" % G.name.strip("_")
+            backup_body = copy.deepcopy(F.body)
+            Gc = copy.deepcopy(G)
+            Gc.name = tmpname
+            if not _inlinable(Gc, force=True):
+                continue
+            idx = F.body.index(G)
+            for c in calls:
+                c.func.id = tmpname
+            F.body.pop(idx)
+            if not F.body:
+                F.body = backup_body
+                continue
+            mod = ast.Module(body=[Gc, F], type_ignores=[])
+            n = inline_helpers(mod)
+            left = [c for c in ast.walk(F) if isinstance(c, ast.Call) and isinstance(c.func, ast.Name) and c.func.id == tmpname]
+            if left or not n:
+                F.body = backup_body
+                continue
+            total += n
+    if total:
+        ast.fix_missing_locations(tree)
+    return total
+
+
+def _sink_tuple_results(tree):
+    """`if c: tmp = (a, b) else: tmp = (c, d)` followed by `x, y = tmp` (tmp an inliner temporary read nowhere else) ->
+    `if c: x = a; y = b else: x = c; y = d`: the tuple that carried several results out of an expanded helper disappears"""
+    n = 0
+
+    def tails(st, name, acc):
+        """the `name = (..)` assignments in tail position of st; False when name is touched anywhere else in st"""
+        if isinstance(st, ast.Assign) and len(st.targets) == 1 and isinstance(st.targets[0], ast.Name) and st.targets[0].id == name:
+            if any(isinstance(x, ast.Name) and x.id == name for x in ast.walk(st.value)):
+                return False
+            acc.append(st)
+            return True
+        if isinstance(st, ast.If):
+            for blk in (st.body, st.orelse):
+                if any(isinstance(x, ast.Name) and x.id == name for x in ast.walk(st.test)):
+                    return False
+                for s2 in blk[:-1]:
+                    if any(isinstance(x, ast.Name) and x.id == name for x in ast.walk(s2)):
+                        return False
+                if blk and not tails(blk[-1], name, acc):
+                    return False
+            return True
+        return not any(isinstance(x, ast.Name) and x.id == name for x in ast.walk(st))
+
+    def fn(stmts):
+        nonlocal n
+        out = list(stmts)
+        i = 1
+        while i < len(out):
+            st = out[i]
+            if isinstance(st, ast.Assign) and len(st.targets) == 1 and isinstance(st.targets[0], ast.Tuple) \
+                    and all(isinstance(t, ast.Name) for t in st.targets[0].elts) and isinstance(st.value, ast.Name) \
+                    and _TEMP_NAME.match(st.value.id):
+                name = st.value.id
+                tg = [t.id for t in st.targets[0].elts]
+                acc = []
+                ok = tails(out[i - 1], name, acc) and acc
+                if ok and any(isinstance(x, ast.Name) and x.id == name for s2 in out[i + 1:] + out[:i - 1] for x in ast.walk(s2)):
+                    ok = False
+                if ok and not all(isinstance(a.value, ast.Tuple) and len(a.value.elts) == len(tg) for a in acc):
+                    ok = False
+                if ok:
+                    for a in acc:
+                        for j, e in enumerate(a.value.elts):
+                            if any(isinstance(x, ast.Name) and x.id in tg[:j] for x in ast.walk(e)):
+                                ok = False
+                if ok:
+                    def rewrite(blk_owner):
+                        for fld in ("body", "orelse"):
+                            blk = getattr(blk_owner, fld, None)
+                            if not isinstance(blk, list):
+                                continue
+                            for k, s2 in enumerate(list(blk)):
+                                if any(s2 is a for a in acc):
+                                    blk[k:k + 1] = [ast.copy_location(ast.Assign(targets=[ast.Name(id=t, ctx=ast.Store())], value=e), s2)
+                                                    for t, e in zip(tg, s2.value.elts)]
+                                elif isinstance(s2, ast.If):
+                                    rewrite(s2)
+                    prev = out[i - 1]
+                    if any(prev is a for a in acc):
+                        out[i - 1:i + 1] = [ast.copy_location(ast.Assign(targets=[ast.Name(id=t, ctx=ast.Store())], value=e), prev)
+                                            for t, e in zip(tg, prev.value.elts)]
+                    else:
+                        rewrite(prev)
+                        out.pop(i)
+                    n += 1
+                    continue
+            i += 1
+        return out
+    _map_blocks(tree, fn)
+    if n:
+        ast.fix_missing_locations(tree)
+    return n
+
+
+def _thread_bool_results(tree):
+    """an if-tree whose every tail is `tmp = <constant>` (tmp an inliner temporary) directly followed by `if tmp: A else: B`
+    -> the tails become A resp. B (jump threading): a predicate helper that was expanded reads like the inline tests again"""
+    n = [0]
+
+    def tails(st, name, acc):
+        if isinstance(st, ast.Assign) and len(st.targets) == 1 and isinstance(st.targets[0], ast.Name) and st.targets[0].id == name:
+            if not isinstance(st.value, ast.Constant):
+                return False
+            acc.append(st)
+            return True
+        if isinstance(st, ast.If):
+            if any(isinstance(x, ast.Name) and x.id == name for x in ast.walk(st.test)):
+                return False
+            for blk in (st.body, st.orelse):
+                if not blk:
+                    return False
+                for s2 in blk[:-1]:
+                    if any(isinstance(x, ast.Name) and x.id == name for x in ast.walk(s2)):
+                        return False
+                if not tails(blk[-1], name, acc):
+                    return False
+            return True
+        return False
+
+    def fn(stmts):
+        out = list(stmts)
+        i = 1
+        while i < len(out):
+            st = out[i]
+            t = st.test if isinstance(st, ast.If) else None
+            neg = False
+            if isinstance(t, ast.UnaryOp) and isinstance(t.op, ast.Not):
+                t, neg = t.operand, True
+            if isinstance(t, ast.Name) and t.id.startswith("__ret_") and isinstance(out[i - 1], ast.If):
+                name = t.id
+                acc = []
+                ok = tails(out[i - 1], name, acc) and acc
+                others = [x for k, s2 in enumerate(out) if k not in (i - 1, i) for x in ast.walk(s2) if isinstance(x, ast.Name) and x.id == name]
+                inner = [x for blk in (st.body, st.orelse) for s2 in blk for x in ast.walk(s2) if isinstance(x, ast.Name) and x.id == name]
+                if ok and not others and not inner:
+                    def rewrite(owner):
+                        for fld in ("body", "orelse"):
+                            blk = getattr(owner, fld, None)
+                            if not isinstance(blk, list):
+                                continue
+                            for k, s2 in enumerate(list(blk)):
+                                if any(s2 is a for a in acc):
+                                    truth = bool(s2.value.value) != neg
+                                    rep = copy.deepcopy(st.body if truth else st.orelse)
+                                    blk[k:k + 1] = rep or [ast.copy_location(ast.Pass(), s2)]
+                                elif isinstance(s2, ast.If):
+                                    rewrite(s2)
+                    rewrite(out[i - 1])
+                    out.pop(i)
+                    n[0] += 1
+                    continue
+            i += 1
+        return out
+    _map_blocks(tree, fn)
+    if n[0]:
+        ast.fix_missing_locations(tree)
+    return n[0]
 
 
 import re as _re_mod
@@ -1218,6 +1861,145 @@ def lower_walrus_while(tree):
     return n[0]
 
 
+def _positions(fn):
+    """textual order of the nodes of a function *as it stands after expansion* (line numbers of expanded helper bodies still
+    point into the helper): {id(node): index}"""
+    pos = {}
+    k = [0]
+
+    def rec(node):
+        pos[id(node)] = k[0]
+        k[0] += 1
+        for ch in ast.iter_child_nodes(node):
+            rec(ch)
+    rec(fn)
+    return pos
+
+
+def propagate_sentinels(tree):
+    """`if T: v = E else: v = None` (v assigned nowhere else; T, E plain names not assigned later) encodes the flag T in the value:
+    a later test `v is not None` becomes `T and E is not None`, and v inside the branch it guards becomes E (exact rewriting)"""
+    n = 0
+    for fn in ast.walk(tree):
+        if not isinstance(fn, (ast.FunctionDef, ast.AsyncFunctionDef)):
+            continue
+        stores = {}
+        pos = _positions(fn)
+        for x in ast.walk(fn):
+            if isinstance(x, ast.Name) and isinstance(x.ctx, (ast.Store, ast.Del)):
+                stores.setdefault(x.id, []).append(x)
+        for iff in [x for x in ast.walk(fn) if isinstance(x, ast.If)]:
+            if len(iff.body) != 1 or len(iff.orelse) != 1:
+                continue
+            a, b = iff.body[0], iff.orelse[0]
+            if not all(isinstance(s_, ast.Assign) and len(s_.targets) == 1 and isinstance(s_.targets[0], ast.Name) for s_ in (a, b)):
+                continue
+            if a.targets[0].id != b.targets[0].id:
+                continue
+            v = a.targets[0].id
+            if len(stores.get(v, [])) != 2:
+                continue
+            def is_none(e):
+                return isinstance(e, ast.Constant) and e.value is None
+            if is_none(b.value) and isinstance(a.value, ast.Name):
+                E, cond = a.value, iff.test
+            elif is_none(a.value) and isinstance(b.value, ast.Name):
+                E, cond = b.value, ast.UnaryOp(op=ast.Not(), operand=iff.test)
+            else:
+                continue
+            tnames = {x.id for x in ast.walk(iff.test) if isinstance(x, ast.Name)}
+            if any(isinstance(x, ast.Call) for x in ast.walk(iff.test)) or v in tnames or E.id == v:
+                continue
+            if any(pos[id(st)] > pos[id(iff)] for nm in tnames | {E.id} for st in stores.get(nm, [])):
+                continue
+            if any(isinstance(x, (ast.Global, ast.Nonlocal)) for x in ast.walk(fn)):
+                continue
+
+            def is_test(e):
+                return isinstance(e, ast.Compare) and len(e.ops) == 1 and isinstance(e.ops[0], ast.IsNot) and isinstance(e.left, ast.Name) \
+                    and e.left.id == v and is_none(e.comparators[0])
+
+            def repl():
+                return ast.BoolOp(op=ast.And(), values=[copy.deepcopy(cond), ast.Compare(left=ast.Name(id=E.id, ctx=ast.Load()), ops=[ast.IsNot()],
+                                                                                          comparators=[ast.Constant(value=None)])])
+            for g in [x for x in ast.walk(fn) if isinstance(x, ast.If) and x is not iff and pos[id(x)] > pos[id(iff)]]:
+                hit = False
+                if is_test(g.test):
+                    g.test = ast.copy_location(repl(), g.test)
+                    hit = True
+                elif isinstance(g.test, ast.BoolOp) and isinstance(g.test.op, ast.And) and any(is_test(c) for c in g.test.values):
+                    vals = []
+                    for c in g.test.values:
+                        vals.extend(repl().values if is_test(c) else [c])
+                    g.test.values = vals
+                    hit = True
+                if hit:
+                    class R(ast.NodeTransformer):
+                        def visit_Name(self, node):
+                            if node.id == v and isinstance(node.ctx, ast.Load):
+                                return ast.copy_location(ast.Name(id=E.id, ctx=ast.Load()), node)
+                            return node
+                    g.body = [R().visit(s_) for s_ in g.body]
+                    n += 1
+    if n:
+        ast.fix_missing_locations(tree)
+    return n
+
+
+def propagate_dict_copies(tree):
+    """`d2 = dict(d1, k=v, ..)` (d2 bound once and only ever read as `d2["<const>"]`; d1, v names that are not re-bound or written
+    into afterwards) -> `d2["k"]` becomes v, `d2["other"]` becomes `d1["other"]`"""
+    n = 0
+    for fn in ast.walk(tree):
+        if not isinstance(fn, (ast.FunctionDef, ast.AsyncFunctionDef)):
+            continue
+        for st in [x for x in ast.walk(fn) if isinstance(x, ast.Assign)]:
+            if not (len(st.targets) == 1 and isinstance(st.targets[0], ast.Name) and isinstance(st.value, ast.Call)
+                    and isinstance(st.value.func, ast.Name) and st.value.func.id == "dict" and len(st.value.args) == 1
+                    and isinstance(st.value.args[0], ast.Name) and all(k.arg and isinstance(k.value, (ast.Name, ast.Constant)) for k in st.value.keywords)):
+                continue
+            d2, d1 = st.targets[0].id, st.value.args[0].id
+            pos = _positions(fn)
+            if d1 == d2:
+                continue
+            names = [x for x in ast.walk(fn) if isinstance(x, ast.Name)]
+            if sum(1 for x in names if x.id == d2 and isinstance(x.ctx, ast.Store)) != 1:
+                continue
+            loads = [x for x in names if x.id == d2 and isinstance(x.ctx, ast.Load)]
+            subs = [x for x in ast.walk(fn) if isinstance(x, ast.Subscript) and isinstance(x.value, ast.Name) and x.value.id == d2
+                    and isinstance(x.ctx, ast.Load) and isinstance(x.slice, ast.Constant) and isinstance(x.slice.value, str)]
+            if not loads or len(loads) != len(subs) or any(pos[id(x)] < pos[id(st)] for x in loads):
+                continue
+            watch = {d1} | {k.value.id for k in st.value.keywords if isinstance(k.value, ast.Name)}
+            dirty = False
+            for x in ast.walk(fn):
+                if isinstance(x, ast.Name) and x.id in watch and isinstance(x.ctx, (ast.Store, ast.Del)) and pos[id(x)] > pos[id(st)]:
+                    dirty = True
+                if isinstance(x, ast.Subscript) and isinstance(x.ctx, (ast.Store, ast.Del)) and isinstance(x.value, ast.Name) and x.value.id == d1 \
+                        and pos[id(x)] > pos[id(st)]:
+                    dirty = True
+                if isinstance(x, ast.Call) and isinstance(x.func, ast.Attribute) and isinstance(x.func.value, ast.Name) and x.func.value.id == d1 \
+                        and x.func.attr in ("update", "pop", "setdefault", "clear", "popitem"):
+                    dirty = True
+            if dirty:
+                continue
+            over = {k.arg: k.value for k in st.value.keywords}
+
+            class R(ast.NodeTransformer):
+                def visit_Subscript(self, node):
+                    if any(node is x for x in subs):
+                        if node.slice.value in over:
+                            return ast.copy_location(copy.deepcopy(over[node.slice.value]), node)
+                        return ast.copy_location(ast.Subscript(value=ast.Name(id=d1, ctx=ast.Load()), slice=node.slice, ctx=ast.Load()), node)
+                    return self.generic_visit(node)
+            R().visit(fn)
+            st.value = ast.copy_location(ast.Constant(value=None), st.value)
+            n += 1
+    if n:
+        ast.fix_missing_locations(tree)
+    return n
+
+
 def split_multi_assign(tree):
     """`a, b = X, Y` (displays of equal length, no target read on the right) -> `a = X; b = Y`;
     `a = b = <constant>` -> `a = <constant>; b = <constant>`"""
@@ -1262,9 +2044,10 @@ def canonical_tests(tree):
         if isinstance(e, ast.BoolOp):
             n[0] += 1
             return ast.copy_location(ast.BoolOp(op=ast.And() if isinstance(e.op, ast.Or) else ast.Or(), values=[neg(v) for v in e.values]), e)
-        if isinstance(e, ast.Compare) and len(e.ops) == 1 and isinstance(e.ops[0], (ast.In, ast.NotIn, ast.Is, ast.IsNot)):
+        if isinstance(e, ast.Compare) and len(e.ops) == 1 and isinstance(e.ops[0], (ast.In, ast.NotIn, ast.Is, ast.IsNot, ast.Eq, ast.NotEq)):
+            # ==/!= too: no class of the package defines __eq__/__ne__, and for builtin and numpy scalars `!=` is `not ==`
             n[0] += 1
-            flip = {ast.In: ast.NotIn, ast.NotIn: ast.In, ast.Is: ast.IsNot, ast.IsNot: ast.Is}[type(e.ops[0])]
+            flip = {ast.In: ast.NotIn, ast.NotIn: ast.In, ast.Is: ast.IsNot, ast.IsNot: ast.Is, ast.Eq: ast.NotEq, ast.NotEq: ast.Eq}[type(e.ops[0])]
             return ast.copy_location(ast.Compare(left=e.left, ops=[flip()], comparators=e.comparators), e)
         return ast.copy_location(ast.UnaryOp(op=ast.Not(), operand=e), e)
 
@@ -1272,7 +2055,7 @@ def canonical_tests(tree):
         if isinstance(e, ast.UnaryOp) and isinstance(e.op, ast.Not):
             inner = e.operand
             if isinstance(inner, (ast.BoolOp, ast.UnaryOp)) or (
-                    isinstance(inner, ast.Compare) and len(inner.ops) == 1 and isinstance(inner.ops[0], (ast.In, ast.NotIn, ast.Is, ast.IsNot))):
+                    isinstance(inner, ast.Compare) and len(inner.ops) == 1 and isinstance(inner.ops[0], (ast.In, ast.NotIn, ast.Is, ast.IsNot, ast.Eq, ast.NotEq))):
                 return neg(inner)
             return e
         if isinstance(e, ast.BoolOp):
@@ -1288,6 +2071,11 @@ def canonical_tests(tree):
             return e
         return e
     for node in ast.walk(tree):
+        if isinstance(node, ast.If) and node.orelse and all(isinstance(s_, ast.Pass) for s_ in node.body):
+            # `if t: pass else: B` (what an expanded guard clause `if t: return` leaves behind) -> `if not t: B`
+            node.test = ast.copy_location(ast.UnaryOp(op=ast.Not(), operand=node.test), node.test)
+            node.body, node.orelse = node.orelse, []
+            n[0] += 1
         if isinstance(node, (ast.If, ast.While, ast.IfExp)):
             node.test = pos(node.test)
         elif isinstance(node, ast.comprehension):
@@ -1397,9 +2185,72 @@ def extern_helpers(tree, modname, raw_trees):
     return out
 
 
-def normalize(tree, extern=None):
+def expand_kwargs_dicts(tree):
+    """`kw = dict(a=x, b=y)` (or a display with constant string keys) that is only ever used as `**kw` in calls of the same
+    function -> the keywords are written out at each call and the assignment is dropped.  Values must be names/constants/
+    attribute reads of names that are not assigned between the dict and its uses."""
+    n = 0
+    for fn in ast.walk(tree):
+        if not isinstance(fn, (ast.FunctionDef, ast.AsyncFunctionDef)):
+            continue
+        assigns = {}
+        for st in ast.walk(fn):
+            if isinstance(st, ast.Assign) and len(st.targets) == 1 and isinstance(st.targets[0], ast.Name):
+                assigns.setdefault(st.targets[0].id, []).append(st)
+        for name, sts in assigns.items():
+            if len(sts) != 1:
+                continue
+            st = sts[0]
+            v = st.value
+            pairs = None
+            if isinstance(v, ast.Call) and isinstance(v.func, ast.Name) and v.func.id == "dict" and not v.args and v.keywords \
+                    and all(k.arg for k in v.keywords):
+                pairs = [(k.arg, k.value) for k in v.keywords]
+            elif isinstance(v, ast.Dict) and v.keys and all(isinstance(k, ast.Constant) and isinstance(k.value, str) and k.value.isidentifier()
+                                                            for k in v.keys):
+                pairs = [(k.value, x) for k, x in zip(v.keys, v.values)]
+            if not pairs:
+                continue
+            if not all(isinstance(x, (ast.Name, ast.Constant)) or (isinstance(x, ast.Attribute) and isinstance(x.value, ast.Name))
+                       for _, x in pairs):
+                continue
+            uses = [x for x in ast.walk(fn) if isinstance(x, ast.Name) and x.id == name and x is not st.targets[0]]
+            kw_uses = [(c, k) for c in ast.walk(fn) if isinstance(c, ast.Call) for k in c.keywords if k.arg is None
+                       and isinstance(k.value, ast.Name) and k.value.id == name]
+            if not kw_uses or len(kw_uses) != len(uses):
+                continue
+            if any(isinstance(x, (ast.Global, ast.Nonlocal)) and name in x.names for x in ast.walk(fn)):
+                continue
+            last = max(c.end_lineno for c, _ in kw_uses)
+            if min(c.lineno for c, _ in kw_uses) <= st.lineno:
+                continue
+            vnames = {y.id for _, x in pairs for y in ast.walk(x) if isinstance(y, ast.Name)}
+            clobbered = False
+            for x in ast.walk(fn):
+                if isinstance(x, ast.Name) and isinstance(x.ctx, (ast.Store, ast.Del)) and x.id in vnames and st.end_lineno < x.lineno <= last:
+                    clobbered = True
+            if clobbered:
+                continue
+            # the call must not already pass one of the keys
+            if any(k2.arg in dict(pairs) for c, _ in kw_uses for k2 in c.keywords if k2.arg):
+                continue
+            for c, k in kw_uses:
+                i = c.keywords.index(k)
+                c.keywords[i:i + 1] = [ast.copy_location(ast.keyword(arg=a, value=copy.deepcopy(x)), k) for a, x in pairs]
+            st.value = ast.copy_location(ast.Constant(value=None), st.value)
+            n += 1
+    if n:
+        ast.fix_missing_locations(tree)
+    return n
+
+
+def normalize(tree, extern=None, modname=None):
     stats = {"match": desugar_match(tree), "suppress": lower_suppress(tree), "walrus": lower_walrus_if(tree) + lower_walrus_while(tree)}
+    stats["kwargs_dicts"] = expand_kwargs_dicts(tree)
     stats.update({"constants": propagate_constants(tree), "inlined": 0, "resugared": resugar_loops(tree)})
+    stats["generators"] = inline_simple_generators(tree, extern)
+    stats["found_flag"] = resugar_found_flag(tree)
+    stats["closures"] = inline_local_closures(tree, modname)
     for _ in range(MAX_ROUNDS):
         n = inline_helpers(tree, extern)
         stats["inlined"] += n
@@ -1410,6 +2261,8 @@ def normalize(tree, extern=None):
     stats["unrolled"] = unroll_constant_loops(tree)
     stats["getsetattr"] = lower_getsetattr(tree)
     stats["ifexp"] = lower_ifexp(tree)
+    stats["sentinels"] = propagate_sentinels(tree)
+    stats["dict_copies"] = propagate_dict_copies(tree)
     stats["multi_assign"] = split_multi_assign(tree)
     stats["tests"] = canonical_tests(tree)
     return stats
@@ -1648,6 +2501,16 @@ def fold_constant_strings(tree):
                     n[0] += 1
                     node.left = ast.copy_location(ast.Constant(value="%s".join(new_parts)), node.left)
                     node.right = ast.copy_location(ast.Tuple(elts=keep, ctx=ast.Load()), node.right)
+            return node
+
+        def visit_IfExp(self, node):
+            self.generic_visit(node)
+            t = node.test
+            if isinstance(t, ast.UnaryOp) and isinstance(t.op, ast.Not) and isinstance(t.operand, ast.Constant):
+                t = ast.Constant(value=not t.operand.value)
+            if isinstance(t, ast.Constant):
+                n[0] += 1
+                return node.body if t.value else node.orelse
             return node
 
         def visit_Call(self, node):
